@@ -49,6 +49,15 @@ def elements(draw):
 def strategy_(draw, tier):
     import random
 
+    if tier == "thorough" and draw(st.integers(0, 7)) == 0:
+        from vf import realgraph
+
+        g = realgraph.window(draw(st.integers(0, realgraph.n_elements() - 3)), draw(st.integers(5, 60)))
+        stale = {n: ["BO:i:%d" % draw(st.integers(0, 50)), "NO:i:%d" % draw(st.integers(0, 5))] for n in g["nodes"]}
+        return {"gfa": gen_graph.gfa_text(g, with_seq=False, order_seed=draw(st.integers(0, 999))),
+                "gfa2": gen_graph.gfa_text(g, with_seq=False, order_seed=draw(st.integers(0, 999)), extra_tags=stale),
+                "order": "chr1", "by_chrom": draw(st.integers(0, 1)) == 1, "real_window": g["real_window"]}
+
     rnd = random.Random(draw(st.integers(0, 2**30)))
     start = draw(st.sampled_from([0, 0, 6, 95, 996]))
     b = gen_graph._Builder(draw, rnd, ["s", draw(st.sampled_from(["utg", "n", "s0"]))], start, 9)
@@ -159,6 +168,15 @@ def run_case(case):
     named = name_components(nodes, links)
     assert named is not None, "generator produced a majority tie"
     order = case["order"].split(",")
+    if case.get("real_window") and order == ["chr1"] and "chr1" not in named and len(named) == 1:
+        order = list(named)  # a window dominated by one long insertion is named after that contig
+        case = dict(case, order=order[0])
+    for c in order:
+        dec = models.chain_decompose(nodes, links, named[c])
+        if not (dec["shape"] in ("chain", "single") and dec.get("oriented") and dec.get("monotone")
+                and len(dec["scaffold_sn"]) <= 1):
+            # outside the statement (no articulation point / end element without rank-0 segment): not judged
+            return core.Result(False, ["excluded:" + dec["shape"]])
     with core.workdir() as d:
         res, files = ordergfa.run_order(d, case["gfa"], case["order"], case["by_chrom"], sub="o1")
         core.check(res[0] == "ok", "order_gfa failed: %s", res)
@@ -180,4 +198,25 @@ def run_case(case):
     if any(l[1] != l[3] for l in links):
         classes.add("inverted_link")
     classes.add("by_chrom" if case["by_chrom"] else "complete")
+    if case.get("real_window"):
+        classes.add("real_graph_window")
     return core.Result(nontrivial, sorted(classes))
+
+
+def enumerations(tier, shard, nshards):
+    if tier != "thorough" or shard != 0:
+        return
+
+    def gen():
+        from vf import realgraph
+
+        g = realgraph.load()
+        text = g["text"]
+        # the shipped file is already ordered: its BO/NO tags act as stale tags for the first rendering
+        lines = text.rstrip("\n").split("\n")
+        import random
+
+        random.Random(7).shuffle(lines)
+        yield {"gfa": text, "gfa2": "\n".join(lines) + "\n", "order": "chr1", "by_chrom": False, "real_window": [0, len(g["elements"])]}
+
+    yield ("the whole real graph tests/data/large-graph-chr1.gfa.gz (90 015 segments), as shipped and with shuffled lines", gen(), True)
